@@ -70,17 +70,23 @@ SEG = {"bad_alphabet": ["ab+c/d", "a b!", "a.b"], "len1mod4": ["abcde", "A"], "e
        "whitespace": ["YW Jj\n", " "], "other_valid": ["AAAA", "e30", "W10"]}
 
 
-def jwe_alg_for(slot) -> tuple[str, str]:
+def jwe_alg_for(slot, v: int = 0) -> tuple[str, str]:
+    """the algorithm pair a slot is exercised under: every member of the family that looks at the slot takes its turn"""
     n = slot["name"]
-    if slot["kind"] == "epk" or n in ("epk", "apu", "apv"): return "ECDH-ES+A128KW", "A128GCM"
-    if n in ("p2s", "p2c"): return "PBES2-HS256+A128KW", "A128GCM"
-    if n in ("iv", "tag"): return "A128GCMKW", "A128CBC-HS256"
-    if n == "skid": return "ECDH-1PU", "A128GCM"
+    encs = list(R.ENC)
+    if slot["kind"] == "epk" or n in ("epk", "apu", "apv"):
+        return [("ECDH-ES+A128KW", "A128GCM"), ("ECDH-ES", "A128CBC-HS256"), ("ECDH-ES+A192KW", "A192GCM"), ("ECDH-ES+A256KW", "A256GCM")][(v // 2) % 4 if v >= 2 else 0]
+    if n in ("p2s", "p2c"): return [("PBES2-HS256+A128KW", "A128GCM"), ("PBES2-HS384+A192KW", "A192CBC-HS384"), ("PBES2-HS512+A256KW", "A256GCM")][v % 3]
+    if n in ("iv", "tag"): return [("A128GCMKW", "A128CBC-HS256"), ("A192GCMKW", "A192GCM"), ("A256GCMKW", "A256CBC-HS512")][v % 3]
+    if n == "skid": return [("ECDH-1PU", "A128GCM"), ("ECDH-1PU+A128KW", "A128CBC-HS256"), ("ECDH-1PU+A192KW", "A192CBC-HS384"), ("ECDH-1PU+A256KW", "A256CBC-HS512")][v % 4]
     if slot["kind"] == "json_shape" and "v" in slot:
         # a member missing from the JSON object meets every key-management family in turn
         return [("A128KW", "A128GCM"), ("ECDH-ES+A128KW", "A128GCM"), ("ECDH-ES+A256KW", "A128CBC-HS256"), ("PBES2-HS256+A128KW", "A128GCM"),
                 ("A128GCMKW", "A128GCM"), ("RSA-OAEP", "A256GCM"), ("ECDH-ES", "A128GCM"), ("dir", "A128GCM")][(slot["v"] // 2) % 8]
-    return "A128KW", "A128GCM"
+    import zlib
+    k = v + zlib.crc32((slot["kind"] + n + slot.get("pos", "")).encode())
+    alg = ["A128KW", "A192KW", "A256KW", "RSA1_5", "RSA-OAEP", "RSA-OAEP-256", "dir"][k % 7]
+    return alg, encs[(k // 7) % len(encs)]
 
 
 def build_and_run(case, v: int, seed: int):
@@ -100,8 +106,12 @@ def build_and_run(case, v: int, seed: int):
 
     # ---------------- JWS family
     if not is_jwe:
-        jwk = K.get("oct256")
-        prot = {"alg": "HS256"}
+        # every JWS algorithm is a row of its own: the cases of a slot are spread over all of them
+        import zlib
+        rot = [a for a in R.JWS_ALGS if a != "none"]
+        alg0 = rot[(v + zlib.crc32((entry + kind + name + cls).encode())) % len(rot)]
+        jwk = K.get(K.JWS_KEY_KIND[alg0])
+        prot = {"alg": alg0}
         held = jwk
         other = kind == "member" and name == "alg" and cls == "other_family"
         if other:
@@ -126,14 +136,14 @@ def build_and_run(case, v: int, seed: int):
             else:
                 val = pick(jt_values(cls, name, rnd))
                 if val is None and cls == "str_ok":
-                    val = "HS256"
+                    val = alg0
                 tgt[name] = val
         if hdr_octets is None:
             hdr_octets = dump(prot)
         b64 = not (fam == "7797" and isinstance(prot.get("b64", False), bool) and prot.get("b64") is False and kind != "hdr_type")
         seg = R.b64e(hdr_octets)
         body = R.b64e(payload) if b64 else payload
-        sig = R.b64e(R.jws_sign("HS256", jwk, seg + b"." + body))
+        sig = R.b64e(R.jws_sign(alg0, jwk, seg + b"." + body))
         parts = {"header": seg.decode(), "payload": body.decode("latin1"), "signature": sig.decode()}
         if kind == "segment":
             parts[name] = pick(SEG[cls])
@@ -155,7 +165,9 @@ def build_and_run(case, v: int, seed: int):
         from joserfc import jws, rfc7797, jwt as jwtm
 
         def call():
-            reg = None if case["reg"] == "default" else (rfc7797.JWSRegistry if fam == "7797" else jws.JWSRegistry)(strict_check_header=False)
+            reg = (rfc7797.JWSRegistry if fam == "7797" else jws.JWSRegistry)(algorithms=[alg0], strict_check_header=case["reg"] == "default")
+            if alg0 in ("HS256", "RS256", "ES256") and v % 2:
+                reg = None if case["reg"] == "default" else (rfc7797.JWSRegistry if fam == "7797" else jws.JWSRegistry)(strict_check_header=False)
             if other and oalg not in ("HS256", "RS256", "ES256"):
                 reg = (rfc7797.JWSRegistry if fam == "7797" else jws.JWSRegistry)(algorithms=list(R.JWS_ALGS), strict_check_header=case["reg"] == "default")
             if jwt: return jwtm.decode(tok, key, registry=reg)
@@ -163,14 +175,14 @@ def build_and_run(case, v: int, seed: int):
             return mod.deserialize_compact(tok, key, registry=reg) if ser == "compact" else mod.deserialize_json(tok, key, registry=reg)
         return classify(call)
     # ---------------- JWE family
-    alg, enc = jwe_alg_for({**slot, "v": v} if kind == "json_shape" else slot)
+    alg, enc = jwe_alg_for({**slot, "v": v} if kind == "json_shape" else slot, v)
     other = kind == "member" and name == "alg" and cls == "other_family"
     if other:
         alg, enc = JWE_BASES[v % len(JWE_BASES)]
         cand = [a for a in R.JWE_ALGS if a != alg]
         oalg = cand[(v // len(JWE_BASES)) % len(cand)]
     rj = K.get(K.jwe_key_kind(alg, enc))
-    sj = K.get("EC:P-256", 1) if alg == "ECDH-1PU" else None
+    sj = K.get(K.jwe_key_kind(alg, enc), 1) if "1PU" in alg else None
     prot = {"alg": alg, "enc": enc}
     if alg.startswith("PBES2"):
         prot["p2c"] = 8
@@ -227,6 +239,18 @@ def build_and_run(case, v: int, seed: int):
             elif cls == "bool": epk[sub] = bool(v % 2)
             elif cls == "float": epk[sub] = 1.5
             elif cls == "deep": epk[sub] = RawJson(DEEP)
+            elif cls == "table_value":
+                OPS = ["sign", "verify", "encrypt", "decrypt", "wrapKey", "unwrapKey", "deriveKey", "deriveBits"]
+                if sub in ("use", "key_ops"):
+                    op = OPS[v % 8]
+                    epk["key_ops"] = op if (v // 8) % 2 else [op] + ([OPS[(v + 3) % 8]] if (v // 48) % 2 else [])
+                    u = ["enc", "sig", None][(v // 16) % 3]
+                    if u: epk["use"] = u
+                    else: epk.pop("use", None)
+                elif sub == "kty": epk["kty"] = ["EC", "OKP", "RSA", "oct"][v % 4]
+                elif sub == "crv": epk["crv"] = ["P-256", "P-384", "P-521", "secp256k1", "Ed25519", "Ed448", "X25519", "X448"][v % 8]
+                elif sub == "alg": epk["alg"] = (list(R.JWE_ALGS) + list(R.JWS_ALGS))[v % (len(R.JWE_ALGS) + len(R.JWS_ALGS))]
+                else: epk[sub] = ["", "0", "AQAB", "-_-_"][v % 4]
             tgt["epk"] = epk
         elif kind == "hdr_type":
             hdr_raw = dump(pick(jt_values(cls, "hdr", rnd)))
@@ -322,7 +346,7 @@ def run_chunk(args):
     out = []
     for idx, case in items:
         # "short" contents are few enough to try them all: every one-octet stream and a two-octet one for each first octet
-        for v in (range(512) if case["class"] == "short" else range(140) if case["class"] == "other_family" else range(16) if (case["slot"]["kind"] == "json_shape" and case["class"] == "missing") else range(nvar)):
+        for v in (range(512) if case["class"] == "short" else range(140) if case["class"] == "other_family" else range(96) if case["class"] == "table_value" else range(16) if (case["slot"]["kind"] == "json_shape" and case["class"] == "missing") else range(nvar)):
             try:
                 o = build_and_run(case, v, seed)
             except Exception as e:  # noqa
